@@ -608,10 +608,12 @@ func (ctx *actorContext) ActorOf(provider ActorProvider, configurator ...ActorDe
 
 	ctx.system.Logger().Debug("ActorSystem", log.String("event", "launch"), log.String("type", reflect.TypeOf(ctx.actor).String()), log.String("actor", processId.GetLogicalAddress()), log.Int("child", len(ctx.children)))
 
+	// 过期任务须在第一条消息投递之前注册：此后调度器仅由 Actor 自身的消息处理过程访问，
+	// 否则创建者协程对 ctx.scheduler 的初始化会与 Actor 自身的 StopTask 读取产生数据竞争
+	ctx.setExpireDuration()
+
 	// 第一条消息
 	ctx.deliverySystemMessage(ref, ref, ctx.parentRef, nil, onLaunch)
-
-	ctx.setExpireDuration()
 	return ref
 }
 
